@@ -360,6 +360,10 @@ def decide(ctx, I, rule, label, cname, path, mkargs, gargs, negative, want, conc
     """decide one rounding cell: determinate run; if a branch is undecided, every path of the may-mode exploration must agree with the
     specification; if that is not complete, the cell is partitioned once more (sub_cells)"""
     stats['cells'] += 1
+    if getattr(ctx, 'over_budget', None) and ctx.over_budget():
+        stats['undecided'] += 1
+        stats['not_decided_soft_budget'] += 1
+        return
     try:
         out = I.run(path, mkargs(), gargs)
         outs = [out]
@@ -965,8 +969,18 @@ class _Collector:
     def count(self, k, n=1):
         self.cov[k] = self.cov.get(k, 0) + n
 
+    def over_budget(self):
+        import time
+        return _DEADLINE[0] is not None and time.time() > _DEADLINE[0]
+
 
 _JOB = {}
+_DEADLINE = [None]     # soft wall-clock budget of the parent Ctx, inherited by the forked workers
+
+
+def _set_deadline(ctx):
+    if getattr(ctx, 'soft_budget_s', None) is not None and getattr(ctx, 't0', None) is not None:
+        _DEADLINE[0] = ctx.t0 + ctx.soft_budget_s
 
 
 def _quire_worker(ps):
@@ -983,6 +997,7 @@ def parallel_quire_to_posit(ctx, prog, rule, q, frac_bits, full, p_step=1, worke
     # sampled leading-one positions always include the limb boundaries (the leading one on the top / bottom bits of a limb)
     ps = sorted(set(range(0, T - 1, p_step)) | {p_ for p_ in range(T - 1) if p_ % 64 in (0, 1, 62, 63)})
     workers = workers or min(16, os.cpu_count() or 4, max(1, len(ps) // 4))
+    _set_deadline(ctx)
     if workers <= 1:
         return check_quire_to_posit(ctx, prog, rule, q, frac_bits, full, ps=ps)
     _JOB.update(prog=prog, rule=rule, q=q, fb=frac_bits, full=full)
@@ -1224,6 +1239,7 @@ def run_parallel(ctx, prog, tasks, workers=None, prefix='opcells_'):
     import multiprocessing as mp
     import os
     workers = workers or min(16, os.cpu_count() or 4, len(tasks))
+    _set_deadline(ctx)
     tot = collections.Counter()
     if workers <= 1 or len(tasks) <= 1:
         for func, args, kwargs in tasks:
